@@ -14,6 +14,7 @@ TRUSTED = ["Lean 4.33.0 kernel", "axioms: propext, Classical.choice, Quot.sound 
            "number into every new index iff changed) reaches the least fixed point (runPhysLat_spec, by forward simulation onto the relation of Props/C03ND.lean); hypotheses: "
            "desugared well-scoped rules and latPlanOk (decidable; no clause reads an index of a lattice that contains the value column - finding F9 lies exactly outside); "
            "tied by `eng runpl` on every odd input of this check",
+           "parallel mode with lattices at the level of the concurrent indices: Props/C02PhysLat.lean (claimed by C02)",
            "monotone use of lattice values is a hypothesis (generated programs let lattice variables flow only into lattice columns)"]
 
 
